@@ -4,7 +4,7 @@ import Mathlib.Tactic.Linarith
 /-!
 # Range coder: basic facts
 
-* the configurations admitted by the static assertions (`RValid`);
+* the configurations allowed by the static assertions (`RValid`);
 * simp lemmas for the checked machine operations;
 * the encoder invariant `Inv`;
 * a pure (fault-free) description `encPure` of `encode_symbol` and the theorem
@@ -281,4 +281,13 @@ theorem encodeCP_eq_pure {c : Cfg} (hc : RValid c) {e : Encoder} (hI : Inv c e) 
   simp only []
   rw [renorm_eq hc (Nat.mod_lt _ (two_pow_pos' _)) hsc3]
 
+end CV.Range
+
+namespace CV.Range
+/-- decidable form of `WordsOK` for concrete lists -/
+theorem wordsOK_of_all {c : Cfg} {l : List Nat}
+    (h : l.all (fun w => decide (w < 2^c.W)) = true) : WordsOK c l := by
+  intro w hw
+  have := List.all_eq_true.mp h w hw
+  simpa using this
 end CV.Range
